@@ -58,7 +58,7 @@ pub fn prop() -> HistProp {
                 c
             }).boxed()
         },
-        quick: 3000,
+        quick: 6000,
         thorough: 40000,
         mk: |_, _, _| {
             Box::new(C14 { updates: 0, claims: 0, delivered: 0, claimed: 0, balance_change_between_updates: false, change_since_update: false, max_holders: 0 })
